@@ -611,6 +611,121 @@ fn mk_block(i: u64, size: u64) -> Vec<u8> {
     (0..size).map(|j| (i as u8).wrapping_mul(16).wrapping_add(j as u8).wrapping_add(1)).collect()
 }
 
+/// Replay of the (replica state, block-or-hash request + seek) pairs exported from MCSeek: the
+/// crate's prover must produce the node lists of the transcribed prover (block/hash, seek and
+/// upgrade sections), and the crate's verifier must accept the proof and store only true content.
+pub fn seekreplay(args: &[String]) {
+    let input = arg(args, "--in", "seek.ndjson");
+    let out = arg(args, "--out", "seek.json");
+    let text = std::fs::read_to_string(&input).unwrap();
+    let mut lines = 0u64;
+    let mut with_section = 0u64;
+    let mut shape_diffs: Vec<Value> = vec![];
+    let mut problems: Vec<Value> = vec![];
+    for line in text.lines() {
+        if line.trim().is_empty() {
+            continue;
+        }
+        lines += 1;
+        let j: Value = serde_json::from_str(line).unwrap();
+        let sizes: Vec<u64> = j["sizes"].as_array().unwrap().iter().map(|x| x.as_u64().unwrap()).collect();
+        let blocks: Vec<Vec<u8>> = sizes.iter().enumerate().map(|(i, s)| mk_block(i as u64, *s)).collect();
+        let r = catch_unwind(AssertUnwindSafe(|| {
+            let kp = test_key_pair();
+            let (mut w, _) = Core::create("w", VDisk::new(), kp.clone());
+            let (mut rep, _) = Core::create("r", VDisk::new(), PartialKeypair { public: kp.public, secret: None });
+            let mut local: Vec<Value> = vec![];
+            let mut sd: Option<Value> = None;
+            let idx = |v: &Vec<Node>| v.iter().map(|n| n.index()).collect::<Vec<u64>>();
+            let mut fetch = |w: &mut Core, rep: &mut Core, b: i64, h: i64, bytes: i64| -> Result<hypercore::Proof, String> {
+                let (rl, wl) = (rep.len(), w.len());
+                let block = if b >= 0 { Some(RequestBlock { index: b as u64, nodes: rep.missing_nodes(b as u64).unwrap_or(0) }) } else { None };
+                let hash = if h >= 0 { Some(RequestBlock { index: h as u64, nodes: rep.missing_nodes_tree(h as u64).unwrap_or(0) }) } else { None };
+                let seek = if bytes >= 0 { Some(RequestSeek { bytes: bytes as u64 }) } else { None };
+                let up = if rl < wl { Some(RequestUpgrade { start: rl, length: wl - rl }) } else { None };
+                match w.create_proof(block, hash, seek, up) {
+                    Ok(Some(p)) => Ok(p),
+                    other => Err(format!("{other:?}").chars().take(160).collect()),
+                }
+            };
+            for st in j["hist"].as_array().unwrap() {
+                match st[0].as_str().unwrap() {
+                    "grow" => {
+                        let n = st[1].as_u64().unwrap();
+                        while w.len() < n {
+                            let i = w.len() as usize;
+                            w.append_single(&blocks[i]);
+                        }
+                    }
+                    kind => {
+                        let bytes = if kind == "seek" { st[3].as_i64().unwrap() } else { -1 };
+                        match fetch(&mut w, &mut rep, st[1].as_i64().unwrap(), st[2].as_i64().unwrap(), bytes) {
+                            Ok(p) => {
+                                let ret = rep.apply_proof(&p);
+                                if ret["applied"] != true {
+                                    local.push(json!({"what":"honest proof of the history refused","step":st,"ret":ret}));
+                                }
+                            }
+                            Err(e) => local.push(json!({"what":"no honest proof for a step of the history","step":st,"got":e})),
+                        }
+                    }
+                }
+            }
+            if rep.len() != j["rl"].as_u64().unwrap() {
+                local.push(json!({"what":"replica length after the history","got":rep.len(),"spec":j["rl"]}));
+            }
+            let (b, h, bytes) = (j["b"].as_i64().unwrap(), j["h"].as_i64().unwrap(), j["bytes"].as_i64().unwrap());
+            let wl = w.len();
+            match fetch(&mut w, &mut rep, b, h, bytes) {
+                Ok(p) => {
+                    let got_b = p.block.as_ref().map(|x| idx(&x.nodes)).or_else(|| p.hash.as_ref().map(|x| idx(&x.nodes))).unwrap_or_default();
+                    let got_s = p.seek.as_ref().map(|x| idx(&x.nodes)).unwrap_or_default();
+                    let got_u = p.upgrade.as_ref().map(|x| idx(&x.nodes)).unwrap_or_default();
+                    let spec = |k: &str| -> Vec<u64> { j[k].as_array().unwrap().iter().map(|n| n.as_u64().unwrap()).collect() };
+                    if got_b != spec("block") || got_s != spec("seek") || got_u != spec("up") {
+                        sd = Some(json!({"hist":j["hist"],"b":b,"h":h,"bytes":bytes,
+                            "crate":{"block":got_b,"seek":got_s,"up":got_u},
+                            "spec":{"block":spec("block"),"seek":spec("seek"),"up":spec("up")}}));
+                    }
+                    let ret = rep.apply_proof(&p);
+                    if ret["applied"] != true {
+                        local.push(json!({"what":"honest proof with seek refused","b":b,"h":h,"bytes":bytes,"hist":j["hist"],"ret":ret}));
+                    } else {
+                        let len = rep.len();
+                        if len != wl {
+                            local.push(json!({"what":"length after the proof","got":len,"writer":wl}));
+                        }
+                        for i in 0..len.min(wl) {
+                            if rep.has(i).unwrap_or(false) {
+                                match rep.get_raw(i) {
+                                    Ok(Some(v)) if v == blocks[i as usize] => {}
+                                    other => local.push(json!({"what":"block content","i":i,"got":format!("{:?}", other.map(|o| o.map(|v| v.len())))})),
+                                }
+                            }
+                        }
+                    }
+                }
+                Err(e) => local.push(json!({"what":"no honest proof for the request","b":b,"h":h,"bytes":bytes,"hist":j["hist"],"got":e})),
+            }
+            (local, sd)
+        }));
+        if !j["seek"].as_array().unwrap().is_empty() {
+            with_section += 1;
+        }
+        match r {
+            Ok((local, sd)) => {
+                problems.extend(local);
+                if let Some(s) = sd { shape_diffs.push(s); }
+            }
+            Err(p) => problems.push(json!({"what":"panic","line":lines,"msg":panic_json(p)})),
+        }
+    }
+    let j = json!({"lines": lines, "with_seek_section": with_section,
+        "shape_diffs": shape_diffs.len(), "shape_diff_samples": shape_diffs.iter().take(5).collect::<Vec<_>>(),
+        "problems": problems.len(), "problem_samples": problems.iter().take(8).collect::<Vec<_>>()});
+    std::fs::write(out, serde_json::to_string_pretty(&j).unwrap()).unwrap();
+}
+
 pub fn merkle(args: &[String]) {
     let l = layout().expect("HCV_LAYOUT");
     let input = arg(args, "--in", "merkle.ndjson");
